@@ -16,6 +16,9 @@ type Renamer func(ssa.Value) string
 
 const MaxSCEVDepth = 100
 
+// MaxSCEVEvalBits bounds the magnitude of constants computed while evaluating expressions.
+const MaxSCEVEvalBits = 256
+
 type SCEV interface {
 	ssa.Value
 	EvaluateAt(k *big.Int, cache map[SCEV]*big.Int) *big.Int
@@ -169,6 +172,15 @@ func (s *SCEVGenericExpr) EvaluateAt(k *big.Int, cache map[SCEV]*big.Int) *big.I
 		}
 		res.Quo(xVal, yVal)
 	default:
+		return nil
+	}
+	// Values are arbitrary-precision: a chain x = x * x doubles the size of the number at
+	// every step. Anything beyond MaxSCEVEvalBits is of no use as a start, step or trip count
+	// and is treated as not evaluable.
+	if res.BitLen() > MaxSCEVEvalBits {
+		if cache != nil {
+			cache[s] = nil
+		}
 		return nil
 	}
 	if cache != nil {
